@@ -56,7 +56,7 @@ M('roll_ge_window', 'C05', 'roll closes a window one item late (count > window-1
 
 # ---- C06 / C07 / C04
 M('split_is_not', 'C06', 'split compares predicate values by identity instead of !=',
-  'rxsci/data/split.py', "                    if new_predicate != current_predicate:", "                    if new_predicate is not current_predicate:")
+  'rxsci/data/split.py', "                    elif new_predicate != current_predicate:", "                    elif new_predicate is not current_predicate:")
 M('time_split_active_gt', 'C07', 'time_split: active timeout compared with > instead of >=',
   'rxsci/data/time_split.py', "new >= start + active_timeout", "new > start + active_timeout")
 M('time_split_inactive_gt', 'C07', 'time_split: inactive timeout compared with > instead of >=',
@@ -272,7 +272,7 @@ M('tee_plain_combine_flags', 'C08', 'plain tee_map combine_latest emits only onc
 M('scan_reduce_emits_each', ['C11', 'C09'], 'scan_mux with reduce=True also emits at every 4th item',
   'rxsci/operators/scan.py', "                        if reduce is False:\n                            observer.on_next(rs.OnNextMux(i.key, acc, i.store))\n                    except Exception as e:", "                        if reduce is False or (isinstance(acc, int) and not isinstance(acc, bool) and acc == 4):\n                            observer.on_next(rs.OnNextMux(i.key, acc, i.store))\n                    except Exception as e:")
 M('split_buffers_segment', 'C11', 'split closes a segment one item late when the new predicate is falsy',
-  'rxsci/data/split.py', "                    if new_predicate != current_predicate:", "                    if new_predicate != current_predicate and (new_predicate or current_predicate is None or True) and not (new_predicate == 0 and current_predicate == 1):")
+  'rxsci/data/split.py', "                    elif new_predicate != current_predicate:", "                    elif new_predicate != current_predicate and not (new_predicate == 0 and current_predicate == 1):")
 
 # ---- C18 / C19 / C20
 M('csv_strip_fields', 'C18', 'csv line parser strips blanks around unquoted AND quoted fields',
